@@ -9,6 +9,7 @@ import (
 	"crypto/sha256"
 	"encoding/hex"
 	"fmt"
+	"sync"
 
 	ipfslog "berty.tech/go-ipfs-log"
 	"berty.tech/go-ipfs-log/entry"
@@ -42,6 +43,37 @@ func (k *StaticKeystore) GetKey(_ context.Context, id string) (crypto.PrivKey, e
 	}
 	return p, nil
 }
+
+// MemoOK, when set and true, lets signing reuse earlier signatures of the same bytes by the
+// same key (signing is deterministic, RFC 6979). The scheduler harness enables it only for
+// set-up code running in direct mode, never for code under exploration (the cache lock would
+// add happens-before edges).
+var MemoOK func() bool
+
+type memoKey struct {
+	crypto.PrivKey
+	mu   sync.Mutex
+	sigs map[string][]byte
+}
+
+func (m *memoKey) Sign(data []byte) ([]byte, error) {
+	if MemoOK == nil || !MemoOK() {
+		return m.PrivKey.Sign(data)
+	}
+	m.mu.Lock()
+	if s, ok := m.sigs[string(data)]; ok {
+		m.mu.Unlock()
+		return append([]byte{}, s...), nil
+	}
+	m.mu.Unlock()
+	s, err := m.PrivKey.Sign(data)
+	if err == nil {
+		m.mu.Lock()
+		m.sigs[string(data)] = append([]byte{}, s...)
+		m.mu.Unlock()
+	}
+	return s, err
+}
 func (k *StaticKeystore) Sign(p crypto.PrivKey, b []byte) ([]byte, error) { return p.Sign(b) }
 func (k *StaticKeystore) Verify(sig []byte, pub crypto.PubKey, data []byte) error {
 	ok, err := pub.Verify(data, sig)
@@ -74,13 +106,13 @@ func Init() {
 		if err != nil {
 			panic(err)
 		}
-		ks.keys[n] = k0
+		ks.keys[n] = &memoKey{PrivKey: k0, sigs: map[string][]byte{}}
 		raw, _ := k0.GetPublic().Raw()
 		k1, err := crypto.UnmarshalSecp256k1PrivateKey(SeedKey("signing/" + n))
 		if err != nil {
 			panic(err)
 		}
-		ks.keys[hex.EncodeToString(raw)] = k1
+		ks.keys[hex.EncodeToString(raw)] = &memoKey{PrivKey: k1, sigs: map[string][]byte{}}
 	}
 	Keystore = ks
 	for _, n := range Names {
